@@ -130,6 +130,12 @@ def view(m):
         D = z3.ArraySort(K, BoolSort()); VA = z3.ArraySort(K, V)
         f = Function('view_%s' % ''.join(c if c.isalnum() else '_' for c in (kt.key + vt.key)), D, VA, VA)
         d, v, k = Const('d', D), Const('v', VA), Const('k', K)
-        GEN_AXIOMS.append(('view[%s]' % m.t.key, ForAll([d, v, k], Select(f(d, v), k) == z3.If(Select(d, k), Select(v, k), z3.K(sort_of(vt.args[0]), z3.BoolVal(False))))))
+        # second trigger: a lookup v[k] in the raw map is related to the view as soon as the view of that map is mentioned anywhere
+        GEN_AXIOMS.append(('view[%s]' % m.t.key, ForAll([d, v, k], Select(f(d, v), k) == z3.If(Select(d, k), Select(v, k), z3.K(sort_of(vt.args[0]), z3.BoolVal(False))),
+                                                         patterns=[Select(f(d, v), k), z3.MultiPattern(f(d, v), Select(v, k))])))
+        # consequence of the definition (proved on every run): the view of an updated map is the updated view
+        s_ = Const('s', V)
+        GEN_LEMMAS.append('view-store[%s]' % m.t.key)
+        GEN_AXIOMS.append(('view-store[%s]' % m.t.key, ForAll([d, v, k, s_], f(z3.Store(d, k, z3.BoolVal(True)), z3.Store(v, k, s_)) == z3.Store(f(d, v), k, s_))))
         return f
     return _fn('view', TUP(kt, vt), mk)(map_dom(m), map_val(m))
